@@ -3,6 +3,10 @@ import TabulaModel.Lemmas.Xref
 /-!
 # C04, histories — "the answer does not depend on the order of lookups or on what was looked
 up before", for the state the reader and its object streams carry between calls
+
+The `reader_*` theorems are about the abstract `File` of Model/Xref.lean (what stands at an
+offset is a function of the file alone): for the code that holds while lookups nest at most
+`maxNestedLoads` = 16 loads (129dd3d); see `Props/C04NestCache.lean` for the caches beyond it.
 -/
 namespace Tabula.C04Hs
 open Tabula.XrefFile Tabula.Xref Tabula.Pdf
@@ -34,6 +38,36 @@ theorem objstm_failed_decode_leaves_no_trace (e : Reader.Err) (st : OSState) (hd
 /-- satisfiable, and not vacuous: a stream that fails to decode answers every call with an error -/
 example : osRun (.error .err) {} [0, 1, 0, -1] = [none, none, none, none] := by
   rw [objstm_history_free]; rfl
+
+/-- **objstm_header_error_kept_equivalent** (the repair c437385 against the model): the code now
+keeps the decoded data and the header error (`headerErr`) instead of staying undecoded
+(`OSStateK` / `osRunK`; `keep` = whether the failure is one the object remembers — a header
+that does not parse — or one it meets again on every access — `Stream.Decode()` failing).
+Either way, every finite sequence of `GetObjectByIndex` calls is answered exactly as by the
+"stays undecoded" machine of c469dd4, hence by what each index means in the stream: the two
+repairs are different state machines with the same answers. -/
+theorem objstm_header_error_kept_equivalent (keep : Bool) (dec : Except Reader.Err Reader.ObjStm)
+    (is : List Int) :
+    osRunK keep dec {} is = osRun dec {} is ∧ osRunK keep dec {} is = is.map (osSpec dec) := by
+  have h := osRunK_eq keep dec is {} {} (osRel_empty dec)
+  exact ⟨h, h.trans (objstm_history_free dec is)⟩
+
+/-- **objstm_header_error_every_time** (what c437385 is about): an object stream whose data does
+not decode or whose header does not parse answers EVERY call of every sequence with an error,
+whether or not the failure is remembered. -/
+theorem objstm_header_error_every_time (keep : Bool) (e : Reader.Err) (is : List Int) :
+    osRunK keep (.error e) {} is = is.map (fun _ => none) := by
+  rw [(objstm_header_error_kept_equivalent keep (.error e) is).2]
+  apply List.map_congr_left
+  intro i _
+  rfl
+
+/-- the kept error: after the first failing call the object holds `headerErr`, and the second
+call fails without decoding again -/
+example : (osGetByIndexK true (.error .err) {} 0).2.headerErr = true ∧
+    osRunK true (.error .err) {} [0, 1, 0, -1] = [none, none, none, none] := by
+  refine ⟨rfl, ?_⟩
+  rw [objstm_header_error_every_time]; rfl
 
 /-- **reader_answers_independent_of_prefix**: whatever sequence of lookups and cache clears
 came before, the answers to a sequence of operations are those a fresh reader gives. -/
